@@ -538,11 +538,16 @@ class Expander:
         out = []
         for e in elts:
             if isinstance(e, ast.Starred):
-                v = self.eval(e.value, env)
+                try:
+                    v = self.eval(e.value, env)
+                except Unsupported:
+                    v = None
                 if isinstance(v, (TupleV, ListV)):
                     out.extend(v.items)
                 else:
-                    raise Unsupported("starred non-literal")
+                    # the rows of an array spliced into a list: an opaque run of elements (its order is the layout engine's
+                    # business; as a value it is never equal to anything else)
+                    out.append(R.sym(f"<*{ast.unparse(e.value)}>"))
             else:
                 out.append(self.eval(e, env))
         return out
